@@ -18,7 +18,9 @@ DOCS = [["/etc/leading/slash"], [" ends with a star *"], ["*/"], [" first", "/se
         # one attribute holding several lines (the `/** .. */` branch of parse_docs) x what it begins / ends with
         ["/etc/app/limits.toml\nsecond line"], ["/\n"], ["/**/\n/"], ["*/\n/"], [" a\n/b\n*/c"], ["*\n"], ["/*\n*/"], [" x\n *"],
         # several attributes, one of them holding several lines x what the continuation line begins with
-        [" Where:", " first, then\n/etc/app/config.toml"], [" a", "b\n/"], [" x\n/**", " y"], ["\n/", ""], [" p\n*/ q", "/r"], [" k\n\n/ after blank", " z"]]
+        [" Where:", " first, then\n/etc/app/config.toml"], [" a", "b\n/"], [" x\n/**", " y"], ["\n/", ""], [" p\n*/ q", "/r"], [" k\n\n/ after blank", " z"],
+        # empty lines: inside one attribute, at its ends, across attributes, nothing but newlines
+        [" block\n\n with an empty line "], [" ends with a newline\n", "\nbegins with one"], ["\n\n\n"], [" x\n\n\n/y\n", "", "\n"], ["\n", "\n"]]
 EXPORT_TO = [None, None, None, "sub/", "nested/deep/", "custom/File.ts", "../up/", "shared.ts", "shared.ts", "sub/shared2.ts"]
 
 
